@@ -266,6 +266,10 @@ class MacroProgram(ElementProgram):
             else:
                 key, value = tal.parse_substitution(clause)
                 translate = ns.get((I18N, 'translate')) == ''
+                if translate:
+                    # When the value is ``default``, the original
+                    # content stands in for it: it is the message then.
+                    content = nodes.Translate('', content)
                 content = self._make_content_node(
                     value, content, key, translate,
                 )
